@@ -105,7 +105,11 @@ def run(fx, rep):
             hw = F.norm_callee(t).rsplit('::', 1)[-1]
             cs = {ordering_const(x) for x in pv.of_operand(t['args'][1])}
             lhs = pv.of_operand(t['args'][0])
-            from_pc = all(F.term_contains(x, lambda y: y[0] == 'call' and y[1] == 'std::cmp::PartialOrd::partial_cmp') for x in lhs)
+            # alternatives that cannot reach a comparison (the Err / residual side of a `?` inside a spliced helper) do not count
+            def error_alt(x):
+                return (x[0] == 'agg' and x[1].endswith('Result::Err')) or (x[0] == 'f' and x[1][0] == 'dc' and x[1][2] == 'Break')
+            lhs = [x for x in lhs if not error_alt(x)]
+            from_pc = bool(lhs) and all(F.term_contains(x, lambda y: y[0] == 'call' and y[1] == 'std::cmp::PartialOrd::partial_cmp') for x in lhs)
             got = (hw, cs)
             okk = hw == how and cs == {const} and from_pc
         rep.check(okk, 'R1', '%s/%s-%s' % (nm, how, const), arms[op]['loc'], 'result %s Ordering::%s' % ('==' if how == 'eq' else '!=', const),
@@ -319,7 +323,7 @@ def run(fx, rep):
         rep.check(len(errs) == 1, 'R4', '%s/None->ValuesNotComparable' % fn, c.loc(), 'incomparable elements are an error', 'None is not reported as ValuesNotComparable')
     rep.floor('R1', 15)
     rep.floor('R2', 20)
-    rep.floor('R4', 12)
+    rep.floor('R4', 6)
 
 
 def fixtures(ffx, rep):
